@@ -754,6 +754,12 @@ def scenarios(pid, tier):
         out.append(S("h2pk", ["req:a", "req:a"], max_connections=2, h2script={"goaway": [1, 3], "rst": 1}, early=False))
         out.append(S("h2pk", ["post:a", "req:a"], max_connections=2, faults=1, fault_set="all"))
         out.append(S("h2alpn", ["req:a:w", "post:a", "req:a"], max_connections=2, faults=1, fault_set="all", early=False))
+    if pid == "C20":
+        # failures after establishment are never retried - also not through the pool's "connection not available" re-send path:
+        # GOAWAY naming the request's own stream (or a later one) as processed must surface as an error, written once
+        for ct in (["h2pk"] if quick else ["h2pk", "h2alpn"]):
+            out.append(S(ct, ["req:a"], max_connections=2, h2script={"goaway": [1, 3]}, early=False))
+            out.append(S(ct, ["req:a:w", "post:a"], max_connections=2, h2script={"goaway": [3, 5]}, early=False))
     if pid == "C14":
         for ct in ["h11", "h2alpn", "h2exp11", "h2pk"]:
             out.append(S(ct, ["post:a", "req:a"], max_connections=2, faults=1, fault_set="all"))
